@@ -424,8 +424,8 @@ type VerifPaginationData struct {
 	PagingURLs []string // URLs, in the order of IsPaging columns
 	IsPaging   [][]bool
 	PathFields []VerifPathPattern // the path-component patterns among PagingKeys, with the fields IsPagingURL reads
-	Param      VerifParamInfo // DetectParamInfo on a second scan
-	Next, Prev string         // PageNumberFinder.FindPagination on a third scan
+	Param      VerifParamInfo     // DetectParamInfo on a second scan
+	Next, Prev string             // PageNumberFinder.FindPagination on a third scan
 }
 
 // VerifPathPattern: a path-component pattern (row KeyIndex of IsPaging) and its fields.
